@@ -566,11 +566,11 @@ OBSERVED_PROPS = {"C01", "C02", "C04", "C06", "C07", "C08", "C09", "C10", "C11",
 
 def extra_modules(prop):
     """Properties_Observers is table-independent and belongs to every observer property; its
-    instantiation with the measured tables belongs to the two properties about those tables"""
+    instantiation with the measured tables belongs to C16 (well-formed texts for the measured table)"""
     out = []
     if prop in OBSERVED_PROPS:
         out.append("Properties_Observers")
-    if prop in ("C11", "C16"):
+    if prop == "C16":
         out.append("Properties_ObserversInst")
     return out
 
